@@ -183,6 +183,54 @@ Proof.
       exfalso. eapply A. reflexivity.
 Qed.
 
+(* ------------------------------------------------------------------ addBranch as a whole *)
+
+Lemma fold_ends_is_xb_ends : forall upd ends j xs s,
+  x_fold_ends (fun j xs e => bres_opt (B.branch_end (upd (S j)) xs s e)) j xs ends = xb_ends upd j xs s ends.
+Proof.
+  intros upd ends; induction ends as [|e rest IH]; intros j xs s; simpl; [reflexivity|].
+  destruct (B.branch_end (upd (S j)) xs s e) as [xs1 c|]; simpl; [apply IH | reflexivity].
+Qed.
+
+Lemma conv_tys_map_Some : forall l, conv_tys (map Some l) = l.
+Proof. induction l as [|x l IH]; simpl; [reflexivity | rewrite IH; reflexivity]. Qed.
+
+(* The whole body of addBranch (sticky build error, compiled flag, the deferred function, END as start
+   node, unknown start node, "number of branches is 1", the graph's own copy of the branch and its
+   index, the type handling [branch_head], the loop over the end nodes with body [branch_end], the
+   append to g.branches) is the model's [add_branch] with the three repair switches off: the k-th
+   call of updateToValidateMap inside it is the model's [update_tvm] under the oracle the model uses
+   for it, the end nodes are visited in the order [order_keys (orc 0 0) ends]. *)
+Theorem gen_add_branch_agrees : forall u (orc : nat -> nat -> list key) upd xs s t ends choice,
+  gh_inv xs ->
+  upd_ok u (fun n => orc 0%nat (S n)) (upd 0%nat) -> (forall j, upd_ok u (orc (S j)) (upd (S j))) ->
+  match B.add_branch u upd xs s t ends (order_keys (orc 0%nat 0%nat) ends) choice false with
+  | AOk xs' => add_branch u false false false orc (x_st xs) s t ends choice = (x_st xs', true) /\ gh_inv xs'
+  | AFailPlain => add_branch u false false false orc (x_st xs) s t ends choice = (x_st xs, false)
+  | AFailSticky => add_branch u false false false orc (x_st xs) s t ends choice = (set_err (x_st xs), false)
+  | AOutside => False
+  end.
+Proof.
+  intros u orc upd xs s t ends choice I U0 Uj. unfold B.add_branch, add_branch, x_has_node.
+  destruct (g_err (x_st xs)); [reflexivity|].
+  destruct (g_compiled (x_st xs)); [reflexivity|].
+  destruct (N.eqb s kEND); [reflexivity|].
+  destruct (negb (has_node (x_st xs) s) && negb (N.eqb s kSTART)); [reflexivity|].
+  destruct (Nat.eqb (List.length ends) 1); [reflexivity|].
+  pose proof (gen_branch_head_agrees u (fun n => orc 0%nat (S n)) (upd 0%nat) xs s t I U0) as H.
+  destruct (B.branch_head u (upd 0%nat) xs s t) as [xs1 conv|].
+  - destruct H as [H1 [I1 [H2 H3]]]. rewrite H1. cbn [negb].
+    rewrite fold_ends_is_xb_ends.
+    pose proof (gen_branch_ends_agrees u orc upd (order_keys (orc 0%nat 0%nat) ends) 0 xs1 s I1 Uj) as E.
+    destruct (xb_ends upd 0 xs1 s (order_keys (orc 0%nat 0%nat) ends)) as [xs2|].
+    + destruct E as [E1 I2]. subst conv. rewrite conv_tys_map_Some.
+      destruct (check_assignable u (out_ty (x_st xs1) s) (Some t)) eqn:K; [congruence | |];
+        rewrite E1; (split; [reflexivity | apply (gh_inv_frame xs2); auto]).
+    + destruct (check_assignable u (out_ty (x_st xs1) s) (Some t)) eqn:K; [congruence | |]; rewrite E; reflexivity.
+  - destruct (branch_pre u false false false (fun n => orc 0%nat (S n)) (x_st xs) s t) as [st1| |]; try reflexivity.
+    rewrite H. reflexivity.
+Qed.
+
 (* ------------------------------------------------------------------ non-vacuity *)
 
 (* on the state of GenAgreeC07Validate (START:T1; node 2 = untyped passthrough; node 3: I2 -> T1;
